@@ -236,6 +236,10 @@ def gen_member(rng, ctx, qual, kind, name):
         if not ctx['annotate']:
             m['ret'] = None
         m['body'] = ['return ' + gen_expr(rng, m['params'], first)]
+        if ctx['annotate'] and first == 'self' and rng.random() < .12:
+            # fluent methods: typing.Self means the class whose body the method is written in, however deep that is
+            m['ret'] = 'typing.Self'
+            m['body'] = ['return self']
     return m
 
 
@@ -360,7 +364,12 @@ def render_member(m, ind, hand):
                                  [f"@{m['name']}.deleter"] + btl)
         return lines
     outer = dict(classmethod=['@classmethod'], staticmethod=['@staticmethod']).get(m['kind'], [])
-    return render_func(ind, m['name'], m['first'], m['params'], m['ret'], m['body'], m['doc'], outer + inner)
+    ret = m['ret']
+    if hand and ret == 'typing.Self':
+        # PEP 673 hints are documented as valid inside @beartype-decorated classes only: the member-by-member route
+        # cannot spell them and leaves this return unannotated (such methods always return self, which Self accepts)
+        ret = None
+    return render_func(ind, m['name'], m['first'], m['params'], ret, m['body'], m['doc'], outer + inner)
 
 
 def render_class(c, ind, route, scope):
